@@ -40,7 +40,7 @@ type c10Stream struct {
 	data   []byte       // BGZF: uncompressed data
 	recs   []oracle.Rec // BAM
 	refs   []oracle.RefSpec
-	recEnd []int // BAM: uncompressed offset of the end of each record (and of the header at index 0)
+	recEnd []int       // BAM: uncompressed offset of the end of each record (and of the header at index 0)
 	bounds map[int]int // member boundary (stream offset) -> uncompressed length before it
 	mems   []*oracle.Member
 }
